@@ -23,6 +23,7 @@ type c18Event struct {
 	key      string
 	rv       string
 	sameObjs bool // update with old == new (a replay / resync)
+	seq      int  // position in the run-wide order of handler calls and completed operations
 }
 
 type c18Handler struct {
@@ -30,6 +31,7 @@ type c18Handler struct {
 	sub        *c18Sub
 	addStep    int
 	removeStep int // 0 = still registered
+	removeSeq  int // run-wide sequence number at which the removing call had returned
 	events     []c18Event
 	cachedAt   map[objKey][]byte // cache content when it was added
 	world      *World
@@ -54,7 +56,8 @@ func (h *c18Handler) rec(typ string, obj interface{}, same bool) {
 		return
 	}
 	h.world.mu.Lock()
-	h.events = append(h.events, c18Event{step: h.world.step, typ: typ, key: u.GetNamespace() + "/" + u.GetName(), rv: u.GetResourceVersion(), sameObjs: same})
+	h.world.c18seq++
+	h.events = append(h.events, c18Event{step: h.world.step, typ: typ, key: u.GetNamespace() + "/" + u.GetName(), rv: u.GetResourceVersion(), sameObjs: same, seq: h.world.c18seq})
 	slow, racing := h.slow && !h.adding, h.racing
 	h.world.mu.Unlock()
 	if slow && same {
@@ -119,6 +122,8 @@ func C18Scenario() *Scenario {
 			factory = dynamicinformer.NewSharedInformerFactory(dc, 30*time.Minute)
 		}
 		sig := map[string]string{"component": "shared-informer-factory"}
+		w.YieldPermille = []int{0, 250, 600}[t.Pick(3, "yield")]
+		w.Cfg["yieldPermille"] = fmt.Sprint(w.YieldPermille)
 		nOps := 4 + t.Pick(9, "nops")
 		w.Cfg["ops"] = fmt.Sprint(nOps)
 		var opLog []string
@@ -142,7 +147,7 @@ func C18Scenario() *Scenario {
 		}
 		// one operation, drawn from the tape
 		doOp := func(w *World) {
-			kinds := []string{"subscribe", "add-handler", "add-handler-resync", "remove-handlers", "close", "object-edit", "object-create", "object-delete", "advance", "add-handler-racing"}
+			kinds := []string{"subscribe", "add-handler", "add-handler-resync", "remove-handlers", "close", "object-edit", "object-create", "object-delete", "advance", "add-handler-racing", "remove-handlers-racing", "close-racing", "subscribe-racing"}
 			op := kinds[t.Pick(len(kinds), "op")]
 			var open []*c18Sub
 			for _, s := range subs {
@@ -150,7 +155,72 @@ func C18Scenario() *Scenario {
 					open = append(open, s)
 				}
 			}
+			markRemoved := func(s *c18Sub) {
+				w.mu.Lock()
+				w.c18seq++
+				for _, h := range s.handlers {
+					if h.removeStep == 0 {
+						h.removeStep = w.step
+						h.removeSeq = w.c18seq
+					}
+				}
+				w.mu.Unlock()
+			}
+			// handFrame gives the informer of res something to do in this very step: a
+			// pending watch frame (made by a write of another party if there is none)
+			handFrame := func(res *Resource) {
+				// (not while a slow handler of that resource may be in the middle of its own
+				// resync: the removing call waits for it with the handler lock held, the
+				// informer would block on that lock, and a goroutine blocked on a mutex keeps
+				// the simulated clock - which the slow handler is sleeping on - from moving)
+				for _, h := range handlers {
+					if h.slow && h.sub.res == res && h.removeStep == 0 {
+						return
+					}
+				}
+				pending := false
+				for _, ws := range w.OpenStreams() {
+					if ws.Res == res && w.streamPending(ws) {
+						pending = true
+					}
+				}
+				if !pending {
+					name := fmt.Sprintf("o%d", t.Pick(4, "obj"))
+					if !EditObject(w, res, "ns1", name, "user", func(o Object) { setPath(o, fmt.Sprint(w.step), childContentField(res), "v") }) {
+						w.Store.Create(res, "ns1", Object{"metadata": Object{"name": name}, childContentField(res): Object{"v": "new"}}, "user")
+					}
+				}
+				for _, ws := range w.OpenStreams() {
+					if ws.Res == res && w.streamPending(ws) && w.Deliver(ws) {
+						w.Probes["operation-while-frame-in-flight"]++
+						return
+					}
+				}
+			}
 			switch op {
+			case "subscribe-racing":
+				// two controllers ask for the same resource at the same moment
+				res := resources[t.Pick(len(resources), "res")]
+				type got struct {
+					ri  *dynamicinformer.ResourceInformer
+					err error
+				}
+				ch := make(chan got, 1)
+				go func() {
+					ri, err := factory.Resource(res.APIVersion(), res.Plural)
+					ch <- got{ri, err}
+				}()
+				ri2, err2 := factory.Resource(res.APIVersion(), res.Plural)
+				g1 := <-ch
+				for _, g := range []got{g1, {ri2, err2}} {
+					if g.err != nil {
+						w.Violation = &Violation{Prop: "HARNESS", Class: "subscribe-failed", Detail: g.err.Error()}
+						return
+					}
+					s := &c18Sub{id: len(subs), res: res, ri: g.ri, openStep: w.step, inc: w.inc}
+					subs = append(subs, s)
+					opLog = append(opLog, fmt.Sprintf("%d subscribe-racing#%d %s", w.step, s.id, res.Kind))
+				}
 			case "subscribe":
 				res := resources[t.Pick(len(resources), "res")]
 				ri, err := factory.Resource(res.APIVersion(), res.Plural)
@@ -218,30 +288,28 @@ func C18Scenario() *Scenario {
 					}
 				}
 				opLog = append(opLog, fmt.Sprintf("%d %s#%d on sub#%d", w.step, op, h.id, s.id))
-			case "remove-handlers":
+			case "remove-handlers", "remove-handlers-racing":
 				if len(open) == 0 {
 					return
 				}
 				s := open[t.Pick(len(open), "sub")]
+				if op == "remove-handlers-racing" {
+					handFrame(s.res)
+				}
 				s.ri.Informer().RemoveEventHandlers()
-				for _, h := range s.handlers {
-					if h.removeStep == 0 {
-						h.removeStep = w.step
-					}
-				}
-				opLog = append(opLog, fmt.Sprintf("%d remove-handlers sub#%d", w.step, s.id))
-			case "close":
+				markRemoved(s)
+				opLog = append(opLog, fmt.Sprintf("%d %s sub#%d", w.step, op, s.id))
+			case "close", "close-racing":
 				if len(open) == 0 {
 					return
 				}
 				s := open[t.Pick(len(open), "sub")]
+				if op == "close-racing" {
+					handFrame(s.res)
+				}
 				// users remove their handlers before closing (as both controllers do)
 				s.ri.Informer().RemoveEventHandlers()
-				for _, h := range s.handlers {
-					if h.removeStep == 0 {
-						h.removeStep = w.step
-					}
-				}
+				markRemoved(s)
 				s.ri.Close()
 				s.closeStep = w.step
 				opLog = append(opLog, fmt.Sprintf("%d close sub#%d", w.step, s.id))
@@ -284,7 +352,7 @@ func C18Scenario() *Scenario {
 				for _, e := range h.events {
 					got[e.typ+" "+e.key+" "+e.rv] = true
 					got["any "+e.key+" "+e.rv] = true
-					if h.removeStep != 0 && e.step > h.removeStep {
+					if h.removeStep != 0 && (e.step > h.removeStep || (h.removeSeq != 0 && e.seq > h.removeSeq)) {
 						return &Violation{Prop: "C18", Class: "event-after-removal", Sig: sig,
 							Detail: fmt.Sprintf("handler#%d (sub#%d, %s) was removed at step %d but received %s %s at step %d (ops: %v)", h.id, h.sub.id, res.Kind, h.removeStep, e.typ, e.key, e.step, opLog)}
 					}
